@@ -105,7 +105,10 @@ def c01 (inp obs : Json) : Res :=
     | some m => { agree := agreeBody && agreeCtx, specOk := false, why := m ++ s!" | out={(jget obs "out").compress}" }
     | none =>
       if !agreeBody then { agree := false, specOk := true, why := s!"model {(Json.null).compress} ≠ implementation for type {k}: expected {repr expect |>.pretty 300} got {(jget obs "out").compress}" }
-      else if !agreeCtx then { agree := false, specOk := true, why := s!"@context: model {wantCtx}, implementation {gotCtx}" }
+      else if !agreeCtx then
+        -- "its @context names exactly the vocabularies it uses": the vocabularies of the type, of the properties
+        -- present and of the nested values, read off the tables — this clause is judged by that reading itself
+        { agree := false, specOk := false, why := s!"@context: the document uses the vocabularies {wantCtx}, the written @context names {gotCtx}" }
       else { agree := true, specOk := true, nontrivial := true, spec := Json.mkObj [("canonB", canonThm), ("labelledCanonical", canonical)] }
 
 end Drv
